@@ -43,6 +43,32 @@ theorem merge_result_target_ok {self other r : Value} {st : RState} (ho : LayerO
     (h : mergeV self other st = .ok r) : (∀ s, r ≠ .str s) ∧ (∀ l, r ≠ .vl l) :=
   (notStrVl_iff r).1 (mergeV_notStrVl self other st r ho h)
 
+/-- The accumulator of the layer loop stays a legal merge target: if it starts as one (e.g.
+`Null`) the loop's result is neither `String` nor `ValueList`. -/
+theorem interpVl_acc_target_ok : ∀ (n : Nat) (root : Mapping) (vs : List Value) (r0 r : Value)
+    (st : RState), NotStrVl r0 → interpVl n root vs r0 st = .ok r →
+    (∀ s, r ≠ .str s) ∧ (∀ l, r ≠ .vl l) := by
+  intro n
+  induction n with
+  | zero => intros; simp_all [interpVl]
+  | succ n ih =>
+    intro root vs r0 r st h0 h
+    cases vs with
+    | nil => simp only [interpVl, Except.ok.injEq] at h; exact h ▸ (notStrVl_iff r0).1 h0
+    | cons v vs =>
+      simp only [interpVl] at h
+      cases h1 : interp n root v st with
+      | error e => simp [h1] at h
+      | ok p =>
+        obtain ⟨x, st1⟩ := p
+        simp only [h1] at h
+        have hx : LayerOK x := layerOK_of_notStrVl ((interp_tokRender_notStrVl n).1 _ _ _ _ _ h1)
+        cases h2 : mergeV r0 x st1 with
+        | error e => simp [h2] at h
+        | ok r1 =>
+          simp only [h2] at h
+          exact ih _ _ _ _ _ (mergeV_notStrVl r0 x st1 r1 hx h2) h
+
 /-- The `unreachable!`s of `Value::merge` are real for other targets. -/
 example : mergeV (.str "a".toList) (.bool true) {} = .error (.panic .mergeTargetStr) := by rfl
 example : mergeV (.vl []) (.bool true) {} = .error (.panic .mergeTargetVl) := by rfl
